@@ -186,3 +186,57 @@ def posting(nposters=2, posts=(1, 1), capacity=3, handler_post=False, pending=0,
   sc.info = {"events": [e.rid for e in events], "posters": list(range(nposters)), "consumer": tid, "D": D, "Q": Q, "kinds": kinds,
              "handler_post_event": hp.rid if hp else None, "capacity": capacity, "posts": list(posts)}
   return sc
+
+
+def bind_instance(sc, obj, name, special=None):
+  """bind the attributes of a real instance by introspection: locks -> RLock models, events -> Event models, attributes listed in
+  `special` as given; everything else that is a plain constant is lifted as a constant"""
+  import threading
+  attrs = {}
+  special = special or {}
+  lock_types = (type(threading.RLock()), type(threading.Lock()))
+  for k, v in vars(obj).items():
+    if k in special:
+      attrs[k] = special[k]
+    elif isinstance(v, lock_types):
+      attrs[k] = sc.add(M.MRLock("%s.%s" % (name, k)))
+    elif isinstance(v, threading.Event):
+      attrs[k] = sc.add(M.MEvent("%s.%s" % (name, k), 1 if v.is_set() else 0))
+    elif v is None or isinstance(v, (bool, int, str)):
+      attrs[k] = v
+  return attrs
+
+
+def singleton(nthreads=2):
+  """N threads make the first request of a singleton at once (C30): the real SingletonDecorator.__call__"""
+  import miros.singleton as sg
+  sc = Scenario("singleton")
+  alloc = sc.add(M.MAlloc("klass", first=1))
+  inst = sc.add(M.MAttr("instance", NONE))
+
+  class Probe:
+    pass
+  real = sg.SingletonDecorator(Probe)
+  klass = SI(lambda comp, a, k: comp.op(alloc, "new", []), "klass")
+  attrs = bind_instance(sc, real, "decorator", {"klass": klass, "instance": inst})
+  dec = PyObj(sg.SingletonDecorator, attrs, "decorator")
+  src = """
+  def caller(dec):
+    r = dec()
+    record(r)
+  """
+  for t in range(nthreads):
+    sc.ghost["res.%d" % t] = 0
+    c = Compiler(sc, t, "caller%d" % t)
+
+    def record(comp, args, kwargs, _t=t):
+      x = comp.intx(args[0])
+
+      def fn(B, st, tid, _x=x):
+        return {"res.%d" % _t: ir.evint(_x, st, B)}
+      comp.ghost(fn, "record", uses=[x])
+      return SK(NONE, None)
+    c.call_function(SF(node=driver(src, "caller"), closure={"record": SI(record)}, qualname="scenario.caller", globs={}), [SP(dec)], {})
+    sc.programs.append(c.finish())
+  sc.info = {"nthreads": nthreads, "lock_attrs": [k for k, v in attrs.items() if isinstance(v, M.MRLock)]}
+  return sc
